@@ -109,6 +109,7 @@ func putCRSTree(w *World, root string, t *rapid.T, label string) {
 	w.Put(root+"/tests/regression/tests/REQUEST-942-APPLICATION-ATTACK-SQLI/942160.yaml", "---\ntests:\n  - test_id: 1\n    desc: a\n  - test_id: 2\n    desc: b\n\n   \n")
 	w.Put(root+"/tests/regression/tests/REQUEST-942-APPLICATION-ATTACK-SQLI/942170.yml", "---\ntests:\n  - test_id: 1\n    desc: no final newline")
 	w.Put(root+"/tests/942150.yaml", dirtyYaml)
+	w.Put(root+"/docs/942110.yml", dirtyYaml) // named like a test file, inside the root, in no test directory
 	if t != nil && chance(t, 50, label+"-extra") {
 		w.Put(root+"/regex-assembly/sub/deeper/x.ra", dirtyRa)
 		w.Put(root+"/util/tool.conf", dirtyConf)
@@ -122,6 +123,7 @@ func genC15(t *rapid.T, tier string) (*World, any) {
 	putCRSTree(w, "outside", nil, "")        // a sibling tree that must never be touched
 	w.Put("crs.conf", dirtyConf)             // beside the root
 	w.Put("942100.yaml", dirtyYaml)
+	w.Put("942110.yml", dirtyYaml)
 	p := &C15Params{}
 	type cmdT struct {
 		name  string
@@ -148,6 +150,8 @@ func genC15(t *rapid.T, tier string) (*World, any) {
 		{"renumber-check-all", []string{"util", "renumber-tests", "--check", "--all"}, ""},
 		{"renumber-check-all-gh", []string{"-o", "github", "util", "renumber-tests", "-c", "-a"}, ""},
 		{"renumber", []string{"util", "renumber-tests", "942110"}, ""},
+		{"renumber-filename", []string{"util", "renumber-tests", pick(t, []string{"942100.yaml", "942110.yml"}, "fnarg")}, ""}, // the file-name spelling of the argument
+		{"renumber-check-filename", []string{"util", "renumber-tests", "--check", pick(t, []string{"942100.yaml", "942110.yml"}, "fnarg2")}, ""},
 		{"renumber-decoy", []string{"util", "renumber-tests", pick(t, []string{"942130", "notes", "9421400", "942120"}, "decoyarg")}, ""},
 		{"renumber-all", []string{"util", "renumber-tests", "--all"}, ""},
 		{"renumber-all-gh", []string{"-o", "github", "util", "renumber-tests", "--all"}, ""},
@@ -161,6 +165,7 @@ func genC15(t *rapid.T, tier string) (*World, any) {
 	places := []place{
 		{"crs", ""}, {"crs", "."}, {"", "crs"}, {"crs/rules", ".."}, {"", "crs/rules"}, {"", "crs/tests/regression/tests"},
 		{"crs/nested", ""}, {"", "crs/nested/rules"}, {"crs", "nested"}, {"outside", "../crs"}, {"", "crs/regex-assembly/include"},
+		{"crs/docs", ".."}, {"crs/nested/docs", "../.."},
 		{"crs/rules", ""}, {"", ""}, // without -d the working directory itself is the root: nothing to find there
 	}
 	maxSteps := 4
@@ -258,7 +263,7 @@ func evalC15(sc *Scenario, sim *Sim) ([]Violation, bool, string) {
 		}
 		inspecting := true
 		switch s.Name {
-		case "format", "format-include", "format-all", "update", "update-all", "renumber", "renumber-decoy", "renumber-all", "renumber-all-gh", "copyright":
+		case "format", "format-include", "format-all", "update", "update-all", "renumber", "renumber-filename", "renumber-decoy", "renumber-all", "renumber-all-gh", "copyright":
 			inspecting = false
 		}
 		var bad []string
@@ -328,7 +333,7 @@ func classifyPath(d string) string {
 func init() {
 	register(&Property{
 		ID: "C15", Level: "exploration",
-		Rule: "scenario = sandbox with a CRS tree, a nested root inside it and a sibling tree outside it, every tree holding real targets and 'dirty' decoys of each kind (other extensions, 942100.txt, 942100.ra.bak, a test file without extension, 942130.yaml.bak, 9421400.yaml, .conf.txt, .example.md, files beside the root) x histories of 1-4 steps drawn from 23 command / flag combinations (generate, generate -, compare, compare --all, -o github, format [--check] single / include / --all, update single / --all, renumber-tests [--check] single / --all / github, update-copyright, version with CI set and unset against an unreachable simulated network, completion) x 13 start positions (-d at the root, a subdirectory, the nested root, from outside, absent) x a schedule (map iteration and directory order) per step. Invariant after every step: changed paths of the whole sandbox (content, type, mode; for inspecting commands also mtime) and every traced write call lie inside the statement's allow-list for that command under the root resolved by the statement's rule. Non-trivial = every scenario; distinct = distinct histories.",
+		Rule: "scenario = sandbox with a CRS tree, a nested root inside it and a sibling tree outside it, every tree holding real targets and 'dirty' decoys of each kind (other extensions, 942100.txt, 942100.ra.bak, a test file without extension, 942130.yaml.bak, 9421400.yaml, .conf.txt, .example.md, files beside the root) x histories of 1-4 steps drawn from 28 command / flag combinations (renumber-tests also with the file-name spelling of its argument while a same-named file lies in the working directory) (generate, generate -, compare, compare --all, -o github, format [--check] single / include / --all, update single / --all, renumber-tests [--check] single / --all / github, update-copyright, version with CI set and unset against an unreachable simulated network, completion) x 15 start positions (-d at the root, a subdirectory, the nested root, from outside, absent) x a schedule (map iteration and directory order) per step. Invariant after every step: changed paths of the whole sandbox (content, type, mode; for inspecting commands also mtime) and every traced write call lie inside the statement's allow-list for that command under the root resolved by the statement's rule. Non-trivial = every scenario; distinct = distinct histories.",
 		Gen:  genC15, Eval: evalC15,
 		QuickChecks: 1200, ThoroughChecks: 20000, Timeout: 20 * time.Second,
 		Assumptions: []string{
